@@ -203,16 +203,24 @@ func (a *adapter) Apply(s engine.Step) (engine.Fields, error) {
 	fl := engine.Fields{}
 	b := s.Act.Args[0].I()
 	switch s.Act.Name {
-	case "InsertBlock", "RejectBlock":
-		blk := node.Copy(a.u.blocks[b], a.sigs(b, s.Act.Args[1]))
+	case "InsertBlock", "RejectBlock", "InsertBlockDup":
+		sigs := a.sigs(b, s.Act.Args[1])
+		if s.Act.Name == "InsertBlockDup" {
+			sigs = append(sigs, sigs...) // every confirm relayed twice before the block arrived
+		}
+		blk := node.Copy(a.u.blocks[b], sigs)
 		_, err := a.nut.DP.InsertBlock(blk)
 		fl["ok"] = err == nil
 		if err != nil {
 			fl["err"] = err.Error()
 		}
-	case "InsertConfirms", "IgnoreConfirms":
+	case "InsertConfirms", "IgnoreConfirms", "InsertConfirmsDup":
 		blk := a.u.blocks[b]
-		err := a.nut.DP.InsertConfirms(blk.Height(), blk.Hash(), a.sigs(b, s.Act.Args[1]))
+		sigs := a.sigs(b, s.Act.Args[1])
+		if s.Act.Name == "InsertConfirmsDup" {
+			sigs = append(sigs, sigs...)
+		}
+		err := a.nut.DP.InsertConfirms(blk.Height(), blk.Hash(), sigs)
 		fl["ok"] = err == nil
 		if err != nil {
 			fl["err"] = err.Error()
